@@ -165,6 +165,16 @@ def main():
     ta, tb = corpus["h01_cat_quarter"][0], corpus["h02_cat_three_quarters"][0]
     plans.append(("cli/twin-benchmarks", [{"kind": "cli", "argv": ["b.prob", "--goals", "E(x)", "E(x**2)"], "files": {"a.prob": ta, "b.prob": tb}}], 0,
                   [{"kind": "cli", "argv": ["a.prob", "b.prob", "--goals", "E(x)", "E(x**2)"], "files": {"a.prob": ta, "b.prob": tb}}], 0, 1))
+    # sensitivity recurrences (DiffRecBuilder shares the solver table between goals): goal order, repetition, prefixes
+    for S in [p for p in corpus if p.startswith(("h06", "h07"))]:
+        t, g = corpus[S]
+        par = [ln[6:].strip() for ln in t.splitlines() if ln.startswith("#sens:")][0]
+        fresh = [{"kind": "sens", "text": t, "goals": g[:3], "param": par}]
+        for perm in list(itertools.permutations(g[:3]))[1:]:
+            plans.append((f"sens-goal-order/{S}/{'-'.join(perm)}", fresh, 0, [{"kind": "sens", "text": t, "goals": list(perm), "param": par}], 0, None))
+        plans.append((f"sens-repeat/{S}", fresh, 0, fresh + fresh, 0, None))
+        plans.append((f"sens-prefix/{S}", fresh, 0, [step(S)] + fresh, 0, None))
+        plans.append((f"sens-hashseed/{S}", fresh, 0, fresh, 7, None))
     # functional programs: exact mode flag is process-global class state
     for F in [p for p in corpus if p.startswith("f0")][: (2 if run.quick else 6)]:
         fresh = [step(F, opts={"exact_func_moments": True})]
